@@ -12,7 +12,8 @@ Per method, in execution order (positions number stores, call sites and raises o
             fills with `append` reads as the comprehension it computes; the result of any other call is the symbol
             `<callee>[k]` (k-th call of that callee in the method), `#i` its i-th component;
  * sites  : every call with the expression each parameter receives (positional arguments resolved through the signature
-            for methods of the walked classes and functions of pyoma2.functions.gen, `#i` otherwise, `**` for a dict);
+            for methods of the walked classes, functions of pyoma2.functions.gen and of scipy.signal (installed version),
+            `#i` otherwise, `**` for a dict);
  * raises : every `raise` with the branch conditions it sits under (a branch that ends in raise/return puts the negated
             test on the path of what follows);
  * methods: parameters, decorators, attributes of self written, objects modified in place, returned expression;
@@ -131,6 +132,18 @@ class World:
                 if isinstance(st, ast.ImportFrom) and st.module == "pyoma2.functions.gen":
                     for al in st.names:
                         imp[al.asname or al.name] = "gen." + al.name
+                if isinstance(st, ast.ImportFrom) and st.module == "scipy.signal":
+                    # parameter names of the installed scipy function (so that `decimate(x, q)` and `decimate(x, q=q)` read the same)
+                    for al in st.names:
+                        imp[al.asname or al.name] = "signal." + al.name
+                        try:
+                            import importlib
+                            import inspect
+
+                            ps = inspect.signature(getattr(importlib.import_module("scipy.signal"), al.name)).parameters
+                            self.gen_sigs["signal." + al.name] = [k for k, v in ps.items() if v.kind in (v.POSITIONAL_ONLY, v.POSITIONAL_OR_KEYWORD)]
+                        except Exception:  # noqa: BLE001  (no signature: positional arguments stay `#i`)
+                            pass
                 if isinstance(st, ast.ClassDef) and st.name in CLASSES:
                     if st.name in self.cls:
                         raise Refuse(f"class {st.name} defined twice")
